@@ -1,8 +1,8 @@
 #!/bin/bash
 # trimcache.sh [limit_gb]: the linked simulator binaries of many scratch trees pile up in the Go build cache (about 0.3 GB per
-# build); empty it when it exceeds the limit (default 70 GB) AND no Go build is running (emptying the cache under a running build
+# build); empty it when it exceeds the limit (default 150 GB) AND no Go build is running (emptying the cache under a running build
 # makes that build fail). Used by the tools that build against many scratch trees, never by a check.
-limit=${1:-70}
+limit=${1:-150}
 d=$(GOTOOLCHAIN=local go env GOCACHE 2>/dev/null); [ -d "$d" ] || exit 0
 gb=$(du -s --block-size=1G "$d" 2>/dev/null | cut -f1)
 if [ "${gb:-0}" -gt "$limit" ]; then
